@@ -236,14 +236,16 @@ def run_one(ck, prog):
             after_match = cfg.dominates(m[0], mb)
             ck.ob("C07.1", f"{nm}|missing-only-at-end-of-environment|#{k}", at_end and not after_match, fn=nm, site=ctx.site(mb),
                   detail="`Missing` is returned from inside the scan (after looking at one entry) instead of only when the NULL entry is reached: a longer name sharing the key as prefix (HOMEDRIVE before HOME) hides the real variable")
-        cur = [l for l, n in ctx.prov.names.items() if n == "env_ptr"]
         steps = []
         for b in fn["blocks"]:
             t = b["term"]
-            if b["id"] in cfg.live_blocks() and t["k"] == "call" and cur and t["dst"]["l"] in _feeds(fn, cur[0]) | {cur[0]} and (t.get("callee") or "").endswith("const_ptr::<impl *const T>::add"):
+            if b["id"] in cfg.live_blocks() and cfg.in_cycle(b["id"]) and t["k"] == "call" and (t.get("callee") or "").endswith("const_ptr::<impl *const T>::add"):
                 a = ctx.args(b["id"])
-                steps.append((b["id"], fold(a[1]) if len(a) > 1 else None, a[0]))
-        ok_step = len(steps) == 1 and steps[0][1] == 1 and canon(steps[0][2]).endswith("env_ptr") and cfg.in_cycle(steps[0][0]) and not cfg.dominates(m[0], steps[0][0]) is None
+                a0 = strip_casts(a[0])
+                # the cursor: a merged local of type *const *const u8 that receives the result of this very call
+                if isinstance(a0, tuple) and a0[0] == "var" and "*const *const u8" in (ctx.prov.local_ty.get(a0[1], "") or "") and t["dst"]["l"] in _feeds(fn, a0[1]) | {a0[1]}:
+                    steps.append((b["id"], fold(a[1]) if len(a) > 1 else None, a[0]))
+        ok_step = len(steps) == 1 and steps[0][1] == 1
         ck.ob("C07.1", f"{nm}|scan-steps-one-entry", ok_step, fn=nm, detail=f"the environment cursor must advance by exactly one entry per round; steps found {[(b, c) for b, c, _ in steps]}")
 
     # ---- C07.7 argument delivery: every argv[i], i < argc, is yielded whatever it contains ---------------------------------------
